@@ -724,6 +724,10 @@ func c05(c *core.Ctx) {
 	// a cancel of the call's own context (the stream's cancel function: the finalizer's, the receive side's when it
 	// fails the call itself) ends the HTTP exchange only if the request is bound to that very context (C04/R3)
 	c.Borrow("C04", map[string]string{"R3": "R13"}, c04)
+	// "receives drain what was delivered and then yield the final status" — and go on yielding it: a frame the receive
+	// path keeps in its peek slot is cleared only when it was a message that has been copied out, never when it is the
+	// error frame that later calls must see again (C01/R3)
+	c.Borrow("C01", map[string]string{"R3": "R15"}, c01)
 	// a reply frame that is not flushed is a reply the client waits for until the handler returns — and a handler
 	// that waits for the client's answer to it never returns (C01/R12)
 	c.Borrow("C01", map[string]string{"R12": "R12"}, c01)
@@ -2336,6 +2340,40 @@ func c05ReplyBodyClosed(c *core.Ctx, fns []*ssa.Function) {
 	}
 	if n < 2 {
 		c.Fail("httpgrpc:roundtrips", token.NoPos, "ANCHOR-MISSING: expected the unary and the streaming RoundTrip, found %d", n)
+	}
+	// The server drains the request body to its END before the HTTP handler returns: a partial drain (CopyN, a
+	// LimitReader) makes net/http drop the connection of a client that is still sending; the transport then stops
+	// reading the client's request pipe and the client's SendMsg blocks in the pipe write for ever, although the
+	// handler has returned
+	nDrain := 0
+	for _, fn := range fns {
+		if fn.Parent() != nil || !core.PkgIs(fn, "httpgrpc") || len(fn.Params) != 1 || core.TypeStr(fn.Params[0].Type()) != "io.ReadCloser" {
+			continue
+		}
+		nDrain++
+		key := core.FuncName(fn) + ":drains-to-the-end"
+		whole := false
+		partial := ""
+		core.Instrs(fn, func(in ssa.Instruction) {
+			cc := core.CallOf(in)
+			if cc == nil {
+				return
+			}
+			ci := core.InfoOf(cc)
+			fromParam := func(v ssa.Value) bool {
+				return core.OriginIs(v, func(o ssa.Value) bool { return core.Strip(o) == ssa.Value(fn.Params[0]) })
+			}
+			switch {
+			case (ci.Is("io.Copy") && len(cc.Args) == 2 && fromParam(cc.Args[1])) || ((ci.Is("io.ReadAll") || ci.Is("io/ioutil.ReadAll")) && fromParam(cc.Args[0])):
+				whole = true
+			case ci.Is("io.CopyN") || ci.Is("io.LimitReader") || ci.Is("io.ReadFull") || ci.Is("io.ReadAtLeast"):
+				partial = ci.Full()
+			}
+		})
+		c.Check(whole && partial == "", key, fn.Pos(), "the request body is copied to its end (io.Copy / ReadAll of the body itself)", "the server's drain of the request body is bounded ("+partial+") or does not read the body itself to its end: the connection of a client that is still sending is dropped, its request pipe is no longer read, and its SendMsg blocks for ever after the handler has returned")
+	}
+	if nDrain == 0 {
+		c.Fail("httpgrpc:request-drain", token.NoPos, "ANCHOR-MISSING: no func(io.ReadCloser) that drains and closes the request body")
 	}
 	// The reply reader of a STREAM drains what is left of the reply only after it has completed the stream: marked
 	// it done, closed the request pipe and released the stream's lock. The reply ends when the server's HTTP handler
